@@ -92,6 +92,8 @@ class TryContext:
     """Context for try-finally blocks (for break/continue/return)."""
 
     finalizer: Any = None  # The finally block AST node
+    loop_depth: int = 0  # len(loop_stack) when the try statement was entered
+    handler_active: bool = True  # A TRY_START handler of this statement is installed
 
 
 class Compiler:
@@ -204,12 +206,27 @@ class Compiler:
         self.bytecode[pos + 1] = target & 0xFF  # Low byte
         self.bytecode[pos + 2] = (target >> 8) & 0xFF  # High byte
 
-    def _emit_pending_finally_blocks(self) -> None:
-        """Emit all pending finally blocks (for break/continue/return)."""
-        # Emit finally blocks in reverse order (innermost first)
-        for try_ctx in reversed(self.try_stack):
+    def _emit_pending_finally_blocks(self, target: Optional[LoopContext] = None) -> None:
+        """Leave the try statements a break/continue/return jumps out of.
+
+        For each of them (innermost first) the installed exception handler is
+        removed and the finally block, if any, is inlined. Try statements that
+        enclose the target loop are not left and stay untouched; a return
+        (target None) leaves all of them.
+        """
+        target_index = self.loop_stack.index(target) if target is not None else -1
+        saved = self.try_stack
+        for i in range(len(saved) - 1, -1, -1):
+            try_ctx = saved[i]
+            if try_ctx.loop_depth <= target_index:
+                break
+            if try_ctx.handler_active:
+                self._emit(OpCode.TRY_END)
             if try_ctx.finalizer:
+                # The finally block runs outside its own try statement
+                self.try_stack = saved[:i]
                 self._compile_statement(try_ctx.finalizer)
+        self.try_stack = saved
 
     def _add_constant(self, value: Any) -> int:
         """Add a constant and return its index."""
@@ -689,7 +706,7 @@ class Compiler:
                     raise SyntaxError("'break' outside of loop")
 
             # Emit pending finally blocks before the break
-            self._emit_pending_finally_blocks()
+            self._emit_pending_finally_blocks(ctx)
 
             self._emit_pops_for_exit(ctx)
             pos = self._emit_jump(OpCode.JUMP)
@@ -714,20 +731,20 @@ class Compiler:
                 raise SyntaxError(f"label '{target_label}' not found")
 
             # Emit pending finally blocks before the continue
-            self._emit_pending_finally_blocks()
+            self._emit_pending_finally_blocks(ctx)
 
             self._emit_pops_for_exit(ctx)
             pos = self._emit_jump(OpCode.JUMP)
             ctx.continue_jumps.append(pos)
 
         elif isinstance(node, ReturnStatement):
-            # Emit pending finally blocks before the return
-            self._emit_pending_finally_blocks()
-
+            # The return value is computed first, then pending finally blocks run
             if node.argument:
                 self._compile_expression(node.argument)
+                self._emit_pending_finally_blocks()
                 self._emit(OpCode.RETURN)
             else:
+                self._emit_pending_finally_blocks()
                 self._emit(OpCode.RETURN_UNDEFINED)
 
         elif isinstance(node, ThrowStatement):
@@ -736,10 +753,12 @@ class Compiler:
             self._emit(OpCode.THROW)
 
         elif isinstance(node, TryStatement):
-            # Push TryContext if there's a finally block so break/continue/return
-            # can inline the finally code
-            if node.finalizer:
-                self.try_stack.append(TryContext(finalizer=node.finalizer))
+            # The TryContext lets break/continue/return remove the handler and
+            # inline the finally code when they leave this statement
+            try_ctx = TryContext(
+                finalizer=node.finalizer, loop_depth=len(self.loop_stack)
+            )
+            self.try_stack.append(try_ctx)
 
             # Try block
             try_start = self._emit_jump(OpCode.TRY_START)
@@ -750,8 +769,9 @@ class Compiler:
             # Jump past exception handler to normal finally
             jump_to_finally = self._emit_jump(OpCode.JUMP)
 
-            # Exception handler
+            # Exception handler (the VM has already removed the handler)
             self._patch_jump(try_start)
+            try_ctx.handler_active = False
             if node.handler:
                 # Has catch block
                 self._emit(OpCode.CATCH)
@@ -761,17 +781,33 @@ class Compiler:
                 slot = self._get_local(name)
                 self._emit(OpCode.STORE_LOCAL, slot)
                 self._emit(OpCode.POP)
-                self._compile_statement(node.handler.body)
+                if node.finalizer:
+                    # An exception thrown by the catch body still runs finally
+                    try_ctx.handler_active = True
+                    catch_try = self._emit_jump(OpCode.TRY_START)
+                    self._compile_statement(node.handler.body)
+                    self._emit(OpCode.TRY_END)
+                    jump_over = self._emit_jump(OpCode.JUMP)
+                    self._patch_jump(catch_try)
+                    try_ctx.handler_active = False
+                    self.try_stack.pop()
+                    self._compile_statement(node.finalizer)
+                    self.try_stack.append(try_ctx)
+                    self._emit(OpCode.THROW)  # Rethrow the exception
+                    self._patch_jump(jump_over)
+                else:
+                    self._compile_statement(node.handler.body)
                 # Fall through to finally
             elif node.finalizer:
                 # No catch, only finally - exception is on stack
                 # Run finally then rethrow
+                self.try_stack.pop()
                 self._compile_statement(node.finalizer)
+                self.try_stack.append(try_ctx)
                 self._emit(OpCode.THROW)  # Rethrow the exception
 
-            # Pop TryContext before compiling normal finally
-            if node.finalizer:
-                self.try_stack.pop()
+            # Leave the TryContext before compiling normal finally
+            self.try_stack.pop()
 
             # Normal finally block (after try completes normally or after catch)
             self._patch_jump(jump_to_finally)
